@@ -375,6 +375,9 @@ type wProf struct {
 	Auto      bool
 	Ver       int
 	ChangedAt int
+	// AccessSel selects the access-settings variant (-1: derived from the
+	// version like every other setting).
+	AccessSel int
 	// tombDevs are the device states a deleted profile still lists (variant
 	// "deleted profile keeps its devices").
 	tombDevs []*wDev
@@ -399,13 +402,19 @@ type world struct {
 	noReuse bool
 	everDev map[agd.DeviceID]bool
 	log     []string
+	// accessLog records the access-settings variant of every profile version
+	// that was put into a response ("id@version" -> variant).
+	accessLog map[string]int
 }
+
+func accessLogKey(id agd.ProfileID, ver string) string { return string(id) + "@" + ver }
 
 func newWorld(base time.Time, noReuse bool, pl *pools) *world {
 	return &world{
 		pl:    pl,
 		profs: map[agd.ProfileID]*wProf{}, devs: map[agd.DeviceID]*wDev{}, devVers: map[agd.DeviceID]int{},
 		epoch: 1, base: base, retired: map[string]bool{}, noReuse: noReuse, everDev: map[agd.DeviceID]bool{},
+		accessLog: map[string]int{},
 	}
 }
 
@@ -424,8 +433,14 @@ func (w *world) touchD(id agd.DeviceID) {
 	w.touchP(d.Prof)
 }
 
+func (w *world) setAccess(id agd.ProfileID, sel int) {
+	w.logf("set-access-variant %s %d -> %d (%s)", id, accessIdxOf(w.profs[id]), sel, accessChangeClass(accessIdxOf(w.profs[id]), sel))
+	w.profs[id].AccessSel = sel
+	w.touchP(id)
+}
+
 func (w *world) addProfile(id agd.ProfileID, auto bool) {
-	w.profs[id] = &wProf{ID: id, Auto: auto}
+	w.profs[id] = &wProf{ID: id, Auto: auto, AccessSel: -1}
 	w.touchP(id)
 	w.logf("add-profile %s auto=%v", id, auto)
 }
@@ -635,7 +650,9 @@ func (w *world) response(reqEpoch int, full bool, rng *rand.Rand) *profiledb.Sto
 	}
 	for _, id := range ids {
 		p := w.profs[id]
-		resp.Profiles = append(resp.Profiles, mkProfile(p))
+		rec := mkProfile(p)
+		resp.Profiles = append(resp.Profiles, rec)
+		w.accessLog[accessLogKey(p.ID, profVer(rec))] = accessIdxOf(p)
 		if p.Deleted {
 			for _, d := range p.tombDevs {
 				resp.Devices = append(resp.Devices, mkDevice(d))
@@ -683,6 +700,8 @@ type scriptedStorage struct {
 	lastFu bool
 	calls  int
 	badTok int
+	// reqs are the sync times of all requests, failed ones included.
+	reqs []time.Time
 }
 
 func (s *scriptedStorage) CreateAutoDevice(context.Context, *profiledb.StorageCreateAutoDeviceRequest) (*profiledb.StorageCreateAutoDeviceResponse, error) {
@@ -693,6 +712,7 @@ func (s *scriptedStorage) Profiles(_ context.Context, req *profiledb.StorageProf
 	s.mu.Lock()
 	defer s.mu.Unlock()
 	s.calls++
+	s.reqs = append(s.reqs, req.SyncTime)
 	if s.fail {
 		return nil, errStorage
 	}
@@ -723,6 +743,10 @@ func (f *failingStorage) Profiles(context.Context, *profiledb.StorageProfilesReq
 }
 
 func newDB(st profiledb.Storage, cache string, fullIvl time.Duration) (*profiledb.Default, error) {
+	return newDBRetry(st, cache, fullIvl, 0)
+}
+
+func newDBRetry(st profiledb.Storage, cache string, fullIvl, retryIvl time.Duration) (*profiledb.Default, error) {
 	return profiledb.New(&profiledb.Config{
 		Logger:               discardLogger,
 		Storage:              st,
@@ -730,7 +754,7 @@ func newDB(st profiledb.Storage, cache string, fullIvl time.Duration) (*profiled
 		Metrics:              profiledb.EmptyMetrics{},
 		CacheFilePath:        cache,
 		FullSyncIvl:          fullIvl,
-		FullSyncRetryIvl:     0,
+		FullSyncRetryIvl:     retryIvl,
 		ResponseSizeEstimate: respSzEst,
 	})
 }
